@@ -203,6 +203,21 @@ func parseOne(t byte, body []byte) (BMsg, string) {
 		if !ok || !ok2 || len(c.b) != 0 {
 			return m, "ParameterStatus must be exactly two C strings"
 		}
+	case 'v':
+		// NegotiateProtocolVersion: newest minor version supported, count of unrecognised options, their names
+		_, ok1 := c.u32()
+		n, ok2 := c.u32()
+		if !ok1 || !ok2 {
+			return m, fmt.Sprintf("NegotiateProtocolVersion needs two int32 (minor version, option count), body is %d bytes", len(body))
+		}
+		for i := uint32(0); i < n; i++ {
+			if _, ok := c.cstr(); !ok {
+				return m, fmt.Sprintf("NegotiateProtocolVersion announces %d option names, name %d is missing or unterminated", n, i+1)
+			}
+		}
+		if len(c.b) != 0 {
+			return m, fmt.Sprintf("NegotiateProtocolVersion: %d bytes behind the announced option names", len(c.b))
+		}
 	case 'Z':
 		if len(body) != 1 || (body[0] != 'I' && body[0] != 'T' && body[0] != 'E') {
 			return m, fmt.Sprintf("ReadyForQuery body must be one of I/T/E, got % x", body)
